@@ -41,6 +41,7 @@ type Registry struct {
 	fpName  map[string]string
 	count   map[string]int
 	macIdx  map[string][2]int // 20-byte send MAC key -> ordered pair
+	unknown map[string]int
 }
 
 func NewRegistry() *Registry {
@@ -107,7 +108,17 @@ func (r *Registry) PubIDBytes(b []byte) int {
 		return s.ID
 	}
 	if ref.InRange(new(big.Int).SetBytes(b)) {
-		return -1
+		// a value in range whose exponent nobody in this run knows: distinct values get
+		// distinct ids (-1000, -1001, ...) so that "the same value again" is decidable
+		if r.unknown == nil {
+			r.unknown = map[string]int{}
+		}
+		if id, ok := r.unknown[string(b)]; ok {
+			return id
+		}
+		id := -1000 - len(r.unknown)
+		r.unknown[string(b)] = id
+		return id
 	}
 	return -2
 }
